@@ -125,6 +125,12 @@ type Event struct {
 	SDKSKRev bool `json:"sdk_sk_revoked"`
 	SDKIKRev bool `json:"sdk_ik_revoked"`
 	SDKRead  bool `json:"sdk_read"` // the SDK's Metastore.Load found both rows
+	// sdk-to-ref with the harness clock overlay: the second the SDK was made to believe it is, and how far the stamps it
+	// wrote are from it (seconds, clamped to +-10^9; TLC integers are 32 bit). "" = the clock was not driven.
+	Clock    string `json:"clock"`
+	DRKDelta int    `json:"drk_created_delta"`
+	IKDelta  int    `json:"ik_created_delta"`
+	SKDelta  int    `json:"sk_created_delta"`
 	// byte-level violations noticed by the reference codec (base64, integer literals, syntax)
 	Mismatch []string `json:"mismatch"`
 	Err      string   `json:"err"`
@@ -269,12 +275,13 @@ func (s *ddbStore) install(id, created string, rec refcodec.KeyRecord, _ bool) e
 // ---------------------------------------------------------------------------------------------------------------
 
 type env struct {
-	d        *ddb
-	http     *httptest.Server
-	v1sess   map[string]*session.Session // in-process fake: per region
-	httpSess map[string]*session.Session // real client over HTTP: per region
-	seq      int
-	rng      *rand.Rand
+	clockDriven bool // the binary was built with the clock overlay: the SDK's time.Now is vrt.Now
+	d           *ddb
+	http        *httptest.Server
+	v1sess      map[string]*session.Session // in-process fake: per region
+	httpSess    map[string]*session.Session // real client over HTTP: per region
+	seq         int
+	rng         *rand.Rand
 }
 
 func newEnv(seed int64) *env {
@@ -618,6 +625,22 @@ func sdkReadFlags(ev *Event, ms appencryption.Metastore) {
 	})
 }
 
+// delta = stamp - now in seconds, clamped
+func delta(stamp string, now int64) int {
+	v, err := strconv.ParseInt(stamp, 10, 64)
+	if err != nil {
+		return -1000000000
+	}
+	d := v - now
+	if d > 1000000000 {
+		d = 1000000000
+	}
+	if d < -1000000000 {
+		d = -1000000000
+	}
+	return int(d)
+}
+
 func (e *env) runCase(c *Case, id int) Event {
 	ev := Event{E: "case", Run: id, ID: id, Ch: c.Ch, Dir: c.Dir, Len: c.Len, Part: c.Part, Svc: c.Svc, Prod: c.Prod, Region: c.Region,
 		SKRev: c.SKRev, IKRev: c.IKRev, Stamp: c.Stamp, SKDoc: []string{}, IKDoc: []string{}, DRRDoc: []string{}, Mismatch: []string{}}
@@ -724,6 +747,11 @@ func (e *env) runCase(c *Case, id int) Event {
 		return ev
 	}
 	readBack(c, &ev, wire, obs.rows(), payload)
+	if c.Dir == "sdk-to-ref" && e.clockDriven {
+		now := t0 + 7
+		ev.Clock = strconv.FormatInt(now, 10)
+		ev.DRKDelta, ev.IKDelta, ev.SKDelta = delta(ev.DRKCreated, now), delta(ev.IKCreated, now), delta(ev.SKCreated, now)
+	}
 	if ev.IKFound && ev.SKFound {
 		sdkReadFlags(&ev, obs.metastore())
 	}
@@ -734,7 +762,7 @@ func (e *env) runCase(c *Case, id int) Event {
 }
 
 // Replay executes the cases printed by TLC (WireFormatGen) and writes one run (reset + case event) per case.
-func Replay(inPath, tracePath, outPath string, seed int64) error {
+func Replay(inPath, tracePath, outPath string, seed int64, clockDriven bool) error {
 	in, err := vutil.OpenIn(inPath)
 	if err != nil {
 		return err
@@ -748,6 +776,7 @@ func Replay(inPath, tracePath, outPath string, seed int64) error {
 	res := &vutil.Result{Driver: "wiredrv",
 		Rule: "every structural case of WireFormat.tla (payload length, ids, region suffix, revoked flags, timestamp class x channel x direction) executed once: the real SDK writes and the documentation-derived codec reads, or the codec writes and the real SDK reads; non-trivial = a revoked row, a region suffix or an id containing the separator"}
 	e := newEnv(seed)
+	e.clockDriven = clockDriven
 	defer e.close()
 	perChannel := map[string]int{}
 	n := 0
